@@ -40,6 +40,7 @@ type PrivCase struct {
 	Magnet   bool         `json:"magnet"` // add by magnet; the metadata comes from a scripted peer
 	PexFirst bool         `json:"pex_before_metadata"`
 	Port     bool         `json:"send_port_message"`
+	Restart  int          `json:"restart"` // 0 no; 1 session closed and reopened right after a started add; 2 after an add in stopped state
 }
 
 var encodings = []string{"i1e", "i1e", "i1e", "i2e", "i-1e", "1:1", "3:yes", "i0e", "1:0", "0:", "le", "de", "i99999999999999999999e", "l1:xe"}
@@ -52,6 +53,9 @@ func genPriv(t *rapid.T) PrivCase {
 	c.Magnet = rapid.IntRange(0, 3).Draw(t, "magnet") == 0
 	c.PexFirst = rapid.Bool().Draw(t, "pexFirst")
 	c.Port = rapid.Bool().Draw(t, "port")
+	if !c.Magnet {
+		c.Restart = rapid.SampledFrom([]int{0, 0, 1, 2}).Draw(t, "restart")
+	}
 	return c
 }
 
@@ -137,7 +141,7 @@ func observe(c *PrivCase, enc string) (o observed, fail string) {
 	if err != nil {
 		return o, "session: " + err.Error()
 	}
-	defer ses.Close()
+	defer func() { ses.Close() }() // closes whichever session is current
 	// a listener whose address is only ever mentioned in a PEX message
 	l2, err := net.Listen("tcp4", sess.IP(5)+":0")
 	if err != nil {
@@ -162,13 +166,31 @@ func observe(c *PrivCase, enc string) (o observed, fail string) {
 	if c.Magnet {
 		tor, err = ses.AddURI("magnet:?xt=urn:btih:"+hex.EncodeToString(ihArr[:])+"&tr="+trk.URL(), nil)
 	} else {
-		tor, err = ses.AddTorrent(bytes.NewReader(mi), nil)
+		tor, err = ses.AddTorrent(bytes.NewReader(mi), &torrent.AddTorrentOptions{Stopped: c.Restart == 2})
 	}
 	if err != nil {
 		o.addErr = err.Error()
 		return o, ""
 	}
 	o.added = true
+	if c.Restart != 0 {
+		// the identity of a private torrent must survive a restart of the session
+		id := tor.ID()
+		if err := ses.Close(); err != nil {
+			return o, "close: " + err.Error()
+		}
+		ses2, err := torrent.NewSession(cfg)
+		if err != nil {
+			ses, _ = torrent.NewSession(sess.Config(dir + "/x")) // keep the deferred Close valid
+			return o, "reopen: " + err.Error()
+		}
+		ses = ses2
+		tor = ses.GetTorrent(id)
+		if tor == nil {
+			return o, "torrent missing after reopen"
+		}
+		_ = tor.Start()
+	}
 	clientAddr := fmt.Sprintf("%s:%d", sess.IP(0), tor.Port())
 	mk := func(k int, pex bool) speer.Opts {
 		var id [20]byte
